@@ -83,6 +83,9 @@ pub struct World {
     pub unexpected_panics: Vec<String>,
     /// progress counter for the watchdog
     pub progress: u64,
+    /// zero-sized tracked elements (no identity): constructions and drops
+    pub zst_made: u64,
+    pub zst_dropped: u64,
 }
 
 impl World {
@@ -101,6 +104,8 @@ impl World {
             default_plan: crate::plan::Plan::mixed(0),
             unexpected_panics: Vec::new(),
             progress: 0,
+            zst_made: 0,
+            zst_dropped: 0,
         }
     }
 }
